@@ -1448,6 +1448,17 @@ closerLoop:
 				state.remove(closer)
 				state.stack = deleteDelimiterStack(state.stack, currentPosition, currentPosition+1)
 			}
+
+			// Delimiters have been removed from the stack,
+			// so the lower bounds recorded above currentPosition
+			// no longer refer to the same delimiters.
+			// Everything below currentPosition is unchanged:
+			// lowering a bound to it keeps the bound true.
+			for i := range openersBottom {
+				if openersBottom[i] > currentPosition {
+					openersBottom[i] = currentPosition
+				}
+			}
 		} else {
 			// We know that there are no openers for this kind of closer up to and including this point,
 			// so put a lower bound on future searches.
@@ -1897,8 +1908,14 @@ type delimiterStackElement struct {
 	node  *Inline
 }
 
-const openersBottomCount = 9
+const openersBottomCount = 14
 
+// openersBottomIndex returns the index in the openers_bottom array
+// for a potential closer.
+// Whether an opener matches a closer depends on the closer's delimiter,
+// on whether the closer can also open,
+// and on its original length modulo 3 (the "rule of three"),
+// so each combination needs its own lower bound.
 func (elem delimiterStackElement) openersBottomIndex() int {
 	switch elem.typ {
 	case inlineDelimiterStar:
@@ -1908,11 +1925,15 @@ func (elem delimiterStackElement) openersBottomIndex() int {
 			return 3 + elem.n%3
 		}
 	case inlineDelimiterUnderscore:
-		return 6
+		if elem.flags&openerFlag == 0 {
+			return 6 + elem.n%3
+		} else {
+			return 9 + elem.n%3
+		}
 	case inlineDelimiterLink:
-		return 7
+		return 12
 	case inlineDelimiterImage:
-		return 8
+		return 13
 	default:
 		panic("unreachable")
 	}
